@@ -17,7 +17,7 @@ const (
 	rC01Neg   = "ORDABS.negation"
 	rC01TX    = "TX.evaluators"
 	rC01Fld   = "TABLE.clause-field-completeness"
-	rC01Order = "ORD.strata-in-order"
+	rC01Order = "ORDABS.strata-in-order"
 	rC01UF    = "ORDABS.substitutions"
 )
 
@@ -28,7 +28,7 @@ func checkC01(c *core.Ctx) {
 	c.Rule(rC01Neg, "premiseNegAtom, evaluated with a stub store and a stub built-in: a negated built-in holds iff the built-in does not, a negated stored atom iff no stored fact unifies", 1)
 	c.Rule(rC01TX, "each evaluator handles every premise kind its engine accepts", 2)
 	c.Rule(rC01Fld, "clause-to-clause functions keep all four fields of the clause", 2)
-	c.Rule(rC01Order, "strata are evaluated in ascending order with earlier strata extensional", 1)
+	c.Rule(rC01Order, "(*engine).evalStrata, read from source and evaluated on a three-layer program with the per-layer fixpoint, the rewriter and the stores replaced by recorders: the layers are evaluated in ascending order, each with exactly its own predicates intensional, their rules, every earlier layer extensional, on the caller's store", 1)
 	c.Rule(rC01UF, "the union-find substitution, evaluated from source on small unification problems: alias chains resolve to the bound constant in Get and in AsConstSubstList without prior path compression, extending a substitution leaves the base untouched, conflicts fail, wildcards stay free", 3)
 	c01Loop(c, rC01Loop, true)
 	unionFindLaws(c, rC01UF)
@@ -40,11 +40,7 @@ func checkC01(c *core.Ctx) {
 		{"engine", "QueryContext.EvalPremise", []string{"ast.Atom", "ast.NegAtom", "ast.Eq", "ast.Ineq"}, "deferred predicates are evaluated top-down with the same premise kinds"},
 	})
 	clauseFieldCompleteness(c, rC01Fld, []string{"engine.makeSingleDeltaRule", "engine.normalizeRule", "analysis.RewriteClause"}, []string{"Head", "HeadTime", "Premises", "Transform"})
-	okOuter, okInner, okOwn := false, false, false
-	if f := c.MustFunc(rC01Order, "engine", "engine.evalStrata"); f != nil {
-		okOuter, okInner, okOwn = c03LoopShape(c, f)
-		c.Check(okOuter && okInner && okOwn, rC01Order, f.Name, f.Decl.Pos(), "ascending stratum loop; earlier strata extensional", "the stratum loop no longer has the ascending shape (outer/inner/own = "+fmt.Sprint(okOuter, okInner, okOwn)+")")
-	}
+	strataOrderRule(c, rC01Order)
 }
 
 // c01Loop is shared by C01, C05, C17 and C20 (different rule names, same evaluation).
@@ -53,13 +49,18 @@ func c01Loop(c *core.Ctx, rule string, withInvariant bool) {
 	if f == nil {
 		return
 	}
+	for _, mode := range []bool{false, true} {
 	for _, p := range absPrograms() {
-		e := newEngineFix(c, rule, p, 0)
+		e := newEngineFixMode(c, rule, p, 0, mode)
 		if e == nil {
 			return
 		}
+		label := p.name
+		if mode {
+			label += ":temporal"
+		}
 		final, isErr, returned, err := e.runEval(f, 400000)
-		if !runORD(c, rule, f.Name+":"+p.name, f, err) {
+		if !runORD(c, rule, f.Name+":"+label, f, err) {
 			continue
 		}
 		want := p.leastModel(1000)
@@ -81,7 +82,19 @@ func c01Loop(c *core.Ctx, rule string, withInvariant bool) {
 			}
 			bad += e.invBad
 		}
-		c.Check(bad == "", rule, f.Name+":"+p.name, f.Decl.Pos(), fmt.Sprintf("least model (%d facts) reached, %d rule evaluations, delta within store throughout", len(want), e.clauses), bad)
+		if mode && bad == "" {
+			for _, a := range e.tAdds {
+				if !strings.HasSuffix(a, "@iv") {
+					bad = "a derived temporal fact is stored as " + a + ", not with the interval it was derived with"
+				}
+			}
+			for f := range e.stores[e.engine.Fields["store"].(*ordabs.Obj)] {
+				bad = "the temporal fact " + f + " ends up in the plain store although a temporal store is configured"
+				break
+			}
+		}
+		c.Check(bad == "", rule, f.Name+":"+label, f.Decl.Pos(), fmt.Sprintf("least model (%d facts) reached, %d rule evaluations, delta within store throughout", len(want), e.clauses), bad)
+	}
 	}
 }
 
